@@ -157,6 +157,8 @@ class ProcSetup:
                 me.calls.append((args, j))
                 return j
 
+            from .core import require
+            require(Pervaporation, "calculate_partial_fluxes")
             pt.set(Pervaporation, "calculate_partial_fluxes", stub_flux)
         if fit == "stub" and not self.ideal:
             def stub_fit(data, include_zero=False, component_index=0, n=None, m=None):
@@ -169,6 +171,8 @@ class ProcSetup:
                 me.fits[i] = {"alpha": f.alpha, "a": list(f.a), "b": list(f.b), "obj": f}
                 return f
 
+            from .core import require
+            require(pvmod, "find_best_fit")
             pt.set(pvmod, "find_best_fit", stub_fit)
 
     def run(self):
